@@ -4,7 +4,9 @@
 /// utils::shl_digits_in_place: "*value *= B^exp" (same arms as shl_digits)
 #[verifier::external_body]
 pub fn shl_digits_in_place<const B: Word>(value: &mut IBig, exp: usize)
-    requires B >= 2
+    requires B >= 2,
+        // resource limit: exponent overflow is a documented panic (C16), not modelled (`exp * log2(B)` in usize, utils.rs:45)
+        pos_room(exp as int),
     ensures final(value).v() == old(value).v() * ipow(B as int, exp as nat)
 { unimplemented!() }
 
